@@ -136,6 +136,9 @@ fn parse_participating_keys(keys: &SExpr, s: &ParserState) -> Result<Vec<u16>> {
         bail_expr!(keys, "The minimum number of participating chord keys is 2");
     }
     participants.sort();
+    if participants.windows(2).any(|pair| pair[0] == pair[1]) {
+        bail_expr!(keys, "A participating chord key must be listed only once");
+    }
     Ok(participants)
 }
 
